@@ -1,3 +1,83 @@
-/-! # C07 — property theorems (stub: filled in when the property's model is built) -/
+import ScenicModel.Props.C07Algebra
+import ScenicModel.Props.C07Spec
+import ScenicModel.Props.C07Dir
+import ScenicModel.Props.C07Ops
+import ScenicModel.Props.C07Real
+/-!
+# C07 — built-in specifiers and operators have their documented geometric meaning
+
+The property theorems are split by topic:
+
+* `Props/C07Algebra.lean` — orientation composition / inversion / Euler conversion, heading convention
+  (`compose_assoc`, `compose_intrinsic`, `inverse_two_sided`, `quat_compose_matrix`, `quat_inverse_matrix`,
+  `quat_inverse_two_sided`, `heading_convention`, `heading_add`, `euler_forward`,
+  `euler_extract_construct`, `euler_construct_extract`, …);
+* `Props/C07Spec.lean` — specifiers / operators that do not depend on generated data (`beyond_frame`,
+  `beyond_local`, `offsetBy_spec`, `offsetAlong_spec`, `relativeTo_*`, `facing_global`, `facing_toward`,
+  `facing_directly_toward`, `following_uniform`);
+* `Props/C07Dir.lean` — the specifiers instantiated on data regenerated from `/repo` (`directional_gap`,
+  `directional_local`, `directional_opoint`, `directional_vector`, `directional_rigid`, `beyond_scalar`,
+  `on_base_contact`, `side_operator`) and the side conditions on that data (`gen_*`);
+* `Props/C07Ops.lean` — the scalar operators and `apparently facing`
+  (`distance_*`, `angle_spec`, `altitude_spec`, `relative_heading_spec`, `apparent_heading_spec`,
+  `distance_past_spec`, `apparently_facing_*`).
+
+* `Props/C07Real.lean` — the `(cos, sin)` pairs instantiated at real angles (`heading_convention_real`, …).
+
+Full statement that is **false of the code at the pinned commit** (kept visible, §2.3 of DESIGN):
+
+    theorem apparently_facing_current :
+        ApparentlyFacingRespectsParent α Gen.Frames.apparentlyFacingUsesParent
+
+and likewise
+
+    theorem beyond_parent_documented :
+        ∀ o, beyondParent Gen.Frames.beyondInheritsFromOrientation (some o) = o
+
+(`Beyond` coerces `fromPt` to a vector *before* testing `isA(fromPt, OrientedPoint)`, so the orientation
+of an oriented `from` argument is never inherited; see `beyond_parent_current_status`).
+
+`ApparentlyFacing.helper` ignores `parentOrientation` (generated flag `= false`), so only
+`apparently_facing_global_parent` (global parent) holds for it; the negation witness is
+`apparently_facing_ignoring_parent_witness`, and `apparently_facing_generated` gives the full statement
+as soon as the regenerated flag becomes `true` (i.e. once the helper works in the parent frame).
+-/
 namespace Scenic.C07
+open Scenic.Frames
+
+/-- whatever `/repo` currently does: if the generated flag says the helper works in the parent frame,
+    the full statement holds -/
+theorem apparently_facing_generated {α : Type} [Field α] [DecidableEq α]
+    (hg : Gen.Frames.apparentlyFacingUsesParent = true) :
+    ApparentlyFacingRespectsParent α Gen.Frames.apparentlyFacingUsesParent := by
+  rw [hg]; exact apparently_facing_respects_parent
+
+/-- the statement about `apparently facing` that applies to the code as it is *now*: either the
+    helper works in the parent frame (then the full statement holds), or it ignores the parent and the
+    full statement is refuted by the witness. -/
+theorem apparently_facing_current_status :
+    (Gen.Frames.apparentlyFacingUsesParent = true ∧
+        ApparentlyFacingRespectsParent Rat Gen.Frames.apparentlyFacingUsesParent) ∨
+    (Gen.Frames.apparentlyFacingUsesParent = false ∧
+        ¬ ApparentlyFacingRespectsParent Rat Gen.Frames.apparentlyFacingUsesParent) := by
+  cases h : Gen.Frames.apparentlyFacingUsesParent
+  · exact Or.inr ⟨rfl, apparently_facing_ignoring_parent_witness⟩
+  · exact Or.inl ⟨rfl, apparently_facing_respects_parent⟩
+
+/-- the statement about the orientation inherited through `beyond … from P` that applies to the code
+    as it is *now*: either the `OrientedPoint` test precedes the coercion and the orientation of an
+    oriented `P` is inherited (as documented), or it follows it and a non-global orientation of `P`
+    is dropped (negation witness: `P` facing West). -/
+theorem beyond_parent_current_status :
+    (Gen.Frames.beyondInheritsFromOrientation = true ∧
+        ∀ o : Mat3 Rat, beyondParent Gen.Frames.beyondInheritsFromOrientation (some o) = o) ∨
+    (Gen.Frames.beyondInheritsFromOrientation = false ∧
+        ∃ o : Mat3 Rat, o.IsRot ∧ beyondParent Gen.Frames.beyondInheritsFromOrientation (some o) ≠ o) := by
+  cases h : Gen.Frames.beyondInheritsFromOrientation
+  · refine Or.inr ⟨rfl, rotZ ⟨0, 1⟩, isRot_rotZ (by unfold Ang.Unit; norm_num), ?_⟩
+    intro e
+    have := congrArg (fun m => m.r0.x) e
+    simp [beyondParent, Mat3.one, rotZ] at this
+  · exact Or.inl ⟨rfl, fun o => rfl⟩
+
 end Scenic.C07
